@@ -394,7 +394,7 @@ def c19(ctx):
 # =========================================================================================
 #  timelines as objects: C09 (purity) and C12 (merged), and C20 (no panic / debug = release)
 # =========================================================================================
-NKO = 13
+NKO = 14
 
 
 def objects_mc(ctx):
